@@ -178,6 +178,39 @@ fn probe(args: &Args) {
             }
         }
     }
+    if which == "sticky" || which == "all" {
+        // an error of an earlier job is overwritten by a later job's NeedsMoreInput
+        for (n, t, cap, magic) in [(0usize, 2usize, 2usize, true), (0, 2, 1, true), (0, 2, 3, true), (0, 3, 2, true), (0, 2, 0, true), (0, 2, 100, true), (0, 2, 2, false), (0, 2, 0, false), (0, 1, 0, false), (0, 1, 2, true)] {
+            for sp in [Spawner::Threads, Spawner::Inline] {
+                let p = mk_params(5, 22, false, false, false, magic, false);
+                let o = run_multi(sp, &p, &vec![0u8; n], t, cap, None);
+                let d = if o.class == "ok" { format!("{:?}", decode_ok(&o.bytes, false, &vec![0u8; n])) } else { "-".into() };
+                let jobs: Vec<String> = (0..t).map(|i| match job_bytes(&p, &vec![0u8; n], i, t).0 { Ok(b) => hex(&b), Err(e) => e }).collect();
+                println!("STICKY spawner={} n={} t={} cap={} magic={} jobs={:?} -> class={} bytes={} returned={} decode={}", sp.name(), n, t, cap, magic, jobs, o.class, hex(&o.bytes), o.returned, d);
+            }
+        }
+    }
+    if which == "d16grid" {
+        // favor on/off over quality x {no truncation, truncation}; counts of differing / wrong outputs
+        for q in 0..=11 {
+            for (lgwin, n) in [(22, 50000usize), (16, 50000), (13, 50000), (10, 6000)] {
+                let (mut same, mut diff, mut wrong, mut other) = (0, 0, 0, 0);
+                let mut first = String::new();
+                for s in 0..(if q >= 10 { 4 } else { 12 }) {
+                    let mut rng = Rng::new(1600 + s);
+                    let kind = s % 5; let t = 2 + (s as usize % 5);
+                    let input = gen_input(&mut rng, n - (s as usize * 37), kind);
+                    let cap = BrotliEncoderMaxCompressedSizeMulti(input.len(), t) + 1000;
+                    let off = run_multi(Spawner::Inline, &mk_params(q, lgwin, false, false, false, false, false), &input, t, cap, None);
+                    let on = run_multi(Spawner::Inline, &mk_params(q, lgwin, true, false, false, false, false), &input, t, cap, None);
+                    if on.class != "ok" || off.class != "ok" { other += 1; if first.is_empty() { first = format!("s={} on={} {} off={}", s, on.class, on.msg, off.class); } continue; }
+                    if on.bytes == off.bytes { same += 1; } else { diff += 1; }
+                    if let Err(e) = decode_ok(&on.bytes, false, &input) { wrong += 1; if first.is_empty() { first = format!("s={} kind={} t={} n={}: {}", s, kind, t, input.len(), e); } }
+                }
+                println!("GRID q={} lgwin={} n~{}: same={} differ={} wrong-decode={} not-ok={} {}", q, lgwin, n, same, diff, wrong, other, first);
+            }
+        }
+    }
     if which == "d16" || which == "all" {
         let mut rng = Rng::new(16);
         for (q, lgwin, t, n, kind) in [(3, 22, 2usize, 20000usize, 1u64), (4, 22, 3, 20000, 1), (2, 22, 2, 20000, 1), (5, 22, 3, 20000, 1), (6, 13, 4, 60000, 1), (6, 13, 4, 60000, 2), (9, 13, 7, 12000, 1), (9, 13, 7, 12000, 2), (5, 10, 4, 20000, 2), (7, 12, 5, 40000, 2), (10, 13, 4, 60000, 2), (11, 13, 4, 30000, 2), (5, 18, 4, 60000, 2), (9, 22, 4, 60000, 2)] {
@@ -192,10 +225,323 @@ fn probe(args: &Args) {
     }
 }
 
+/// one `compress_stream` call of a recomputed job
+#[derive(Clone)]
+pub struct CallObs { pub result: bool, pub consumed: usize, pub produced: Vec<u8>, pub panicked: bool }
+/// a job recomputed through the public API as `compress_part` does it
+#[derive(Clone)]
+pub struct JobObs { pub token: String, pub bytes: Option<Vec<u8>>, pub calls: Vec<CallObs>, pub finished: bool, pub lo: usize, pub hi: usize, pub dict_pos: u64 }
+
+type Hasher = UnionHasher<StandardAlloc>;
+
+fn one_job(params: &BrotliEncoderParams, input: &[u8], i: usize, t: usize, hasher: Hasher) -> JobObs {
+    let (lo, hi) = get_range(i, t, input.len());
+    let r = catch_unwind(AssertUnwindSafe(|| {
+        let mut mem = vec![0u8; BrotliEncoderMaxCompressedSize(hi - lo)];
+        let mut state = BrotliEncoderStateStruct::new(StandardAlloc::default());
+        state.params = params.clone();
+        if i != 0 { state.params.catable = true; state.params.magic_number = false; }
+        state.params.appendable = true;
+        if i != 0 { state.set_custom_dictionary_with_optional_precomputed_hasher(lo, &input[..lo], hasher); }
+        let dict_pos = state.last_processed_pos_;
+        let mut out_offset = 0usize;
+        let mut available_out = mem.len();
+        let mut cur = lo;
+        let mut calls = vec![];
+        let token;
+        let mut bytes = None;
+        loop {
+            let mut next_in_offset = 0usize;
+            let mut available_in = hi - cur;
+            let before = out_offset;
+            let result = state.compress_stream(BrotliEncoderOperation::BROTLI_OPERATION_FINISH, &mut available_in, &input[cur..hi], &mut next_in_offset, &mut available_out, &mut mem[..], &mut out_offset, &mut None, &mut |_a, _b, _c, _d| ());
+            cur += next_in_offset;
+            calls.push(CallObs { result, consumed: next_in_offset, produced: mem[before..out_offset].to_vec(), panicked: false });
+            if result { token = format!("ok:{}", hex(&mem[..out_offset])); bytes = Some(mem[..out_offset].to_vec()); break; } else if available_out == 0 { token = "err".to_string(); break; }
+            if calls.len() > 64 { token = "spin".to_string(); break; }
+        }
+        let finished = state.is_finished();
+        brotli::enc::encode::BrotliEncoderDestroyInstance(&mut state);
+        JobObs { token, bytes, calls, finished, lo, hi, dict_pos }
+    }));
+    match r { Ok(j) => j, Err(_) => JobObs { token: "panic".into(), bytes: None, calls: vec![CallObs { result: false, consumed: 0, produced: vec![], panicked: true }], finished: false, lo, hi, dict_pos: 0 } }
+}
+
+/// all jobs of one CompressMulti call, recomputed; with `favor_cpu_efficiency` the shared index is
+/// built exactly as the favor branch of CompressMulti does (public API only)
+pub fn recompute_jobs(params: &BrotliEncoderParams, input: &[u8], t: usize) -> Vec<JobObs> {
+    use brotli::enc::backward_references::{AnyHasher, CloneWithAlloc};
+    let mut jobs = vec![];
+    if t > 1 && params.favor_cpu_efficiency {
+        jobs.push(one_job(params, input, 0, t, UnionHasher::Uninit));
+        let built = catch_unwind(AssertUnwindSafe(|| {
+            let mut local = params.clone();
+            brotli::enc::encode::SanitizeParams(&mut local);
+            let mut alloc = StandardAlloc::default();
+            let mut hasher: Hasher = UnionHasher::Uninit;
+            brotli::enc::encode::HasherSetup(&mut alloc, &mut hasher, &mut local, &[], 0, 0, 0);
+            let mut hs: Vec<Hasher> = vec![];
+            for ti in 1..t {
+                let (lo, hi) = get_range(ti - 1, t, input.len());
+                let overlap = hasher.StoreLookahead().wrapping_sub(1);
+                if hi - lo > overlap { hasher.BulkStoreRange(input, usize::MAX, if lo > overlap { lo - overlap } else { 0 }, hi - overlap); }
+                hs.push(hasher.clone_with_alloc(&mut alloc));
+            }
+            hs
+        }));
+        match built {
+            Ok(hs) => { for (k, h) in hs.into_iter().enumerate() { jobs.push(one_job(params, input, k + 1, t, h)); } }
+            Err(_) => { for k in 1..t { let (lo, hi) = get_range(k, t, input.len()); jobs.push(JobObs { token: "panic".into(), bytes: None, calls: vec![], finished: false, lo, hi, dict_pos: 0 }); } }
+        }
+    } else {
+        for i in 0..t { jobs.push(one_job(params, input, i, t, UnionHasher::Uninit)); }
+    }
+    jobs
+}
+
+#[derive(Clone, Debug)]
+pub struct Case { pub q: i32, pub lgwin: i32, pub large: bool, pub favor: bool, pub catable: bool, pub appendable: bool, pub magic: bool, pub t: usize, pub n: usize, pub kind: u64, pub dseed: u64, pub size_hint: usize }
+impl Case {
+    pub fn params(&self) -> BrotliEncoderParams { let mut p = mk_params(self.q, self.lgwin, self.favor, self.catable, self.appendable, self.magic, self.large); p.size_hint = self.size_hint; p }
+    pub fn input(&self) -> Vec<u8> { let mut r = Rng::new(self.dseed); gen_input(&mut r, self.n, self.kind) }
+    pub fn json(&self, extra: &str) -> String {
+        format!("{{\"quality\":{},\"lgwin\":{},\"large_window\":{},\"favor_cpu_efficiency\":{},\"catable\":{},\"appendable\":{},\"magic_number\":{},\"size_hint\":{},\"threads\":{},\"input_len\":{},\"input_kind\":{},\"input_seed\":{}{}}}", self.q, self.lgwin, self.large, self.favor, self.catable, self.appendable, self.magic, self.size_hint, self.t, self.n, self.kind, self.dseed, extra)
+    }
+    /// sanitised lgwin as the encoder will use it for the dictionary bound
+    pub fn eff_lgwin(&self) -> i32 { let l = self.lgwin.max(10); if l > 24 { if self.large { l.min(30) } else { 24 } } else { l } }
+    /// some job > 0 has a prefix longer than the window
+    pub fn truncated(&self) -> bool { self.q >= 2 && self.t > 1 && get_range(self.t - 1, self.t, self.n).0 > (1usize << self.eff_lgwin()) - 16 }
+}
+
+fn gen_case(rng: &mut Rng, small: bool) -> Case {
+    let q = match rng.below(10) { 0 => 0, 1 => 1, 2 => *rng.pick(&[10, 11]), _ => rng.range(2, 9) as i32 };
+    let t = match rng.below(8) { 0 => 1, 1 => 16, 2 => rng.range(9, 15), _ => rng.range(2, 8) } as usize;
+    let (lgwin, n): (i32, usize) = if small {
+        match rng.below(6) {
+            0 => (rng.range(10, 24) as i32, rng.below(t as u64 + 2) as usize),              // shorter than the thread count
+            1 | 2 => (*rng.pick(&[10, 10, 11]), rng.range(1100, 3500) as usize),             // truncated prefixes
+            _ => (rng.range(10, 24) as i32, rng.range(1, 3000) as usize),
+        }
+    } else {
+        match rng.below(10) {
+            0 => (rng.range(10, 24) as i32, rng.below(t as u64 + 2) as usize),
+            1 | 2 | 3 => (rng.range(10, 13) as i32, if q >= 10 { rng.range(3000, 30000) } else { rng.range(20000, 200000) } as usize),
+            4 => (rng.range(14, 24) as i32, if q >= 10 { rng.range(3000, 30000) } else { rng.range(20000, 200000) } as usize),
+            5 => (rng.range(16, 22) as i32, if q >= 10 { 5000 } else if rng.chance(1, 4) { (1 << 20) + rng.below(300000) as usize } else { rng.range(200000, 400000) as usize }),
+            _ => (rng.range(10, 24) as i32, rng.range(1, 20000) as usize),
+        }
+    };
+    let large = rng.chance(1, 12);
+    let lgwin = if large && rng.chance(1, 2) { rng.range(25, 30) as i32 } else if rng.chance(1, 30) { *rng.pick(&[0, 5, 9, 25, 40]) } else { lgwin };
+    let n = if lgwin > 24 && large { n.min(20000) } else { n };
+    let size_hint = if rng.chance(1, 10) { *rng.pick(&[1usize << 20, (1 << 22) + 1, 100, n]) } else { 0 };
+    Case { q, lgwin, large, favor: rng.chance(1, 2), catable: rng.chance(1, 3), appendable: rng.chance(1, 3), magic: rng.chance(1, 4), t, n, kind: rng.below(5), dseed: rng.next(), size_hint }
+}
+
+fn out_token(o: &Outcome) -> String {
+    match o.class.as_str() {
+        "panic" => "panic".to_string(),
+        "ok" => format!("ok:{}:{}", o.returned as u8, hex(&o.bytes)),
+        c => format!("{}:{}:-", c, o.returned as u8),
+    }
+}
+
+static BEAT: std::sync::atomic::AtomicU64 = std::sync::atomic::AtomicU64::new(0);
+fn beat() { BEAT.fetch_add(1, std::sync::atomic::Ordering::SeqCst); }
+
+/// the search-stage oracles for one case; returns the ample-buffer reference outcome
+fn search_case(c: &Case, rep: &mut Report, pool: &mut Pool, rng: &mut Rng) {
+    let params = c.params();
+    let input = c.input();
+    let t = c.t;
+    let bound = BrotliEncoderMaxCompressedSizeMulti(c.n, t);
+    rep.evaluations += 1;
+    if t >= 2 && get_range(0, t, c.n).1 > 0 && c.n >= 2 { rep.nontrivial += 1; }
+    rep.count(&format!("q.{}", c.q));
+    rep.count(&format!("threads.{}", if t == 1 { "1".into() } else if t <= 8 { "2-8".to_string() } else { "9-16".to_string() }));
+    if c.n < t { rep.count("input.shorter_than_threads"); }
+    if c.truncated() { rep.count("prefix.longer_than_window"); }
+    if c.favor { rep.count("favor.on"); }
+    if c.catable { rep.count("flag.catable"); } if c.appendable { rep.count("flag.appendable"); } if c.magic { rep.count("flag.magic"); } if c.large { rep.count("flag.large_window"); }
+    let mut check = |o: &Outcome, sp: &str, cap: usize, rep: &mut Report| {
+        beat();
+        let extra = format!(",\"spawner\":\"{}\",\"out_capacity\":{},\"result\":\"{}\"", sp, cap, o.class);
+        if o.class == "panic" {
+            let kind = if o.msg.contains("orig_hasher") { "debug-assert-shared-index" } else { "other" };
+            rep.violation(&format!("multi:panic:{}", kind), &format!("CompressMulti panicked: {}", o.msg), c.json(&extra));
+            return;
+        }
+        if !o.returned {
+            rep.violation(if o.class == "ok" { "multi:input-not-returned:on-ok" } else { "multi:input-not-returned:on-error" }, "the input was not handed back to the caller (owned_input is InternalOwned::Borrowed)", c.json(&extra));
+        }
+        if o.class == "ok" {
+            rep.count("result.ok");
+            if let Err(e) = decode_ok(&o.bytes, c.large, &input) {
+                let sig = if c.favor && c.truncated() { "multi:ok-wrong-data:favor-truncated-prefix" } else if cap < bound { "multi:ok-wrong-data:short-output-buffer" } else { "multi:ok-wrong-data" };
+                rep.violation(sig, &format!("success reported but the {} bytes do not decode to the input: {}", o.bytes.len(), e), c.json(&extra));
+            } else { rep.count("decoded.both"); }
+        } else {
+            rep.count(&format!("result.err.{}", o.class));
+            if cap >= bound && c.q >= 2 { rep.violation("multi:sized-not-ok", &format!("output buffer of {} >= advertised maximum {} and quality >= 2 but the call failed ({})", cap, bound, o.class), c.json(&extra)); }
+        }
+    };
+    // ample buffer: the advertised bound (q >= 2) — every spawner, reused pool, repeat
+    let cap = if c.q >= 2 { bound } else { bound + c.n / 2 + 4096 };
+    let th = run_multi(Spawner::Threads, &params, &input, t, cap, None); check(&th, "threads", cap, rep);
+    let pf = run_multi(Spawner::PoolFresh, &params, &input, t, cap, None); check(&pf, "pool", cap, rep);
+    let pr = run_multi(Spawner::PoolFresh, &params, &input, t, cap, Some(pool)); check(&pr, "pool-reused", cap, rep);
+    let il = run_multi(Spawner::Inline, &params, &input, t, cap, None); check(&il, "inline", cap, rep);
+    let th2 = run_multi(Spawner::Threads, &params, &input, t, cap + 1 + rng.below(5000) as usize, None); check(&th2, "threads", cap + 1, rep);
+    if c.q < 2 && th.class != "ok" { rep.count("q01.bound_not_enough"); }
+    let same = |a: &Outcome, b: &Outcome| a.class == b.class && a.bytes == b.bytes;
+    if th.class != "panic" && il.class != "panic" {
+        if !same(&th, &pf) || !same(&th, &il) { rep.violation("multi:spawner-differs", &format!("thread-per-job / pool / inline disagree: {} {} / {} {} / {} {}", th.class, th.bytes.len(), pf.class, pf.bytes.len(), il.class, il.bytes.len()), c.json("")); }
+        if !same(&pf, &pr) { rep.violation("multi:pool-reuse-differs", "fresh pool and reused pool disagree", c.json("")); }
+        if !same(&th, &th2) { rep.violation("multi:repeat-differs", "a repeated run (larger output buffer) gave a different result", c.json("")); }
+        rep.count("compared.spawners");
+    }
+    // favor on vs off (C06)
+    if t > 1 {
+        let mut p2 = params.clone(); p2.favor_cpu_efficiency = !c.favor;
+        let other = run_multi(Spawner::Inline, &p2, &input, t, cap, None);
+        let mut c2 = c.clone(); c2.favor = !c.favor;
+        check(&other, "inline", cap, rep);
+        // attribute a wrong decode of the flipped run to the flipped case
+        if il.class == "ok" && other.class == "ok" {
+            rep.count("compared.favor");
+            if il.bytes != other.bytes {
+                let sig = if c.truncated() { "multi:favor-differs:truncated-prefix" } else if c.q == 3 || c.q == 4 { "multi:favor-differs:q3-4" } else { "multi:favor-differs:other" };
+                rep.violation(sig, &format!("favor_cpu_efficiency on/off give different bytes ({} vs {} bytes)", il.bytes.len(), other.bytes.len()), c.json(""));
+                if let Err(e) = decode_ok(if c.favor { &il.bytes } else { &other.bytes }, c.large, &input) { let _ = e; }
+            }
+        }
+        let _ = c2;
+    }
+    // buffers below the bound: exact fit, one short, random, tiny
+    if th.class == "ok" {
+        let l = th.bytes.len();
+        let mut caps = vec![l, l.saturating_sub(1), rng.below(l as u64 + 1) as usize, rng.below(7) as usize];
+        if rng.chance(1, 2) { caps.push(l / 2); }
+        for (k, cp) in caps.into_iter().enumerate() {
+            let sp = [Spawner::Inline, Spawner::Threads, Spawner::PoolFresh][(k + c.t) % 3];
+            let o = run_multi(sp, &params, &input, t, cp, if sp == Spawner::PoolFresh && k % 2 == 0 { Some(&mut *pool) } else { None });
+            if cp == l { rep.count(if o.class == "ok" { "exact_fit.ok" } else { "exact_fit.err" }); if o.class == "ok" && o.bytes != th.bytes { rep.violation("multi:repeat-differs", "exact-fit buffer gave different bytes", c.json("")); } }
+            else if cp < l { rep.count("below_needed"); if o.class == "ok" { rep.count("below_needed.ok"); } }
+            check(&o, sp.name(), cp, rep);
+        }
+    }
+    // every job recomputed: Ok must mean a finished stream (compress_part cannot see a truncated part)
+    if c.n <= 60000 {
+        for (i, j) in recompute_jobs(&params, &input, t).iter().enumerate() {
+            if j.bytes.is_some() && !j.finished { rep.violation("multi:part-truncated", &format!("job {} reports Ok({}) for an unfinished stream (buffer of BrotliEncoderMaxCompressedSize({}) bytes too small)", i, j.bytes.as_ref().unwrap().len(), j.hi - j.lo), c.json("")); }
+            if j.token == "err" || j.token == "spin" || j.token == "panic" { rep.count(&format!("job.{}", j.token)); }
+            if j.calls.len() > 1 { rep.count("job.multi_call"); }
+        }
+    }
+}
+
+/// correspondence lines for one (small) case
+fn corr_case(c: &Case, lines: &mut Vec<(String, String)>, rep: &mut Report, pool: &mut Pool, rng: &mut Rng) {
+    let params = c.params();
+    let input = c.input();
+    let (t, n) = (c.t, c.n);
+    lines.push((format!("multi max {}", n), format!("{}", BrotliEncoderMaxCompressedSize(n))));
+    lines.push((format!("multi maxmulti {} {}", n, t), format!("{}", BrotliEncoderMaxCompressedSizeMulti(n, t))));
+    let jobs = recompute_jobs(&params, &input, t);
+    beat();
+    for (i, j) in jobs.iter().enumerate() {
+        lines.push((format!("multi range {} {} {}", i, t, n), format!("ok {} {}", j.lo, j.hi)));
+        lines.push((format!("multi max {}", j.hi - j.lo), format!("{}", BrotliEncoderMaxCompressedSize(j.hi - j.lo))));
+        let calls: Vec<String> = j.calls.iter().map(|k| if k.panicked { "P".to_string() } else { format!("{}:{}:{}", k.result as u8, k.consumed, hex(&k.produced)) }).collect();
+        lines.push((format!("multi part {} {} {} {}", i, t, n, calls.join(" ")), j.token.clone()));
+        if i != 0 && j.token != "panic" && !(c.favor && t > 1) {
+            // position arithmetic of the dictionary call (real encoder state) vs the model's plan
+            let used = j.dict_pos != 0;
+            lines.push((format!("multi dict {} {} {}", j.lo, c.eff_lgwin(), c.q.clamp(0, 11)), format!("{} {} {}", used as u8, if used { j.lo as u64 - j.dict_pos } else { 0 }, j.dict_pos)));
+            rep.count(if !used { "dict.unused" } else if (j.dict_pos as usize) < j.lo { "dict.truncated" } else { "dict.whole" });
+        }
+    }
+    if jobs.iter().any(|j| j.token == "panic") { rep.count("corr.skipped_job_panic"); return; }
+    let jl: Vec<String> = jobs.iter().map(|j| j.token.clone()).collect();
+    let jl = jl.join(" ");
+    let bound = BrotliEncoderMaxCompressedSizeMulti(n, t);
+    let refo = run_multi(Spawner::Inline, &params, &input, t, bound + n + 4096, None);
+    let l = if refo.class == "ok" { refo.bytes.len() } else { bound };
+    let mut caps: Vec<(usize, Spawner, bool)> = vec![(bound + n + 4096, Spawner::Inline, false), (bound, Spawner::Threads, false), (bound, Spawner::PoolFresh, false), (bound + 7, Spawner::PoolFresh, true), (l, Spawner::Threads, false), (l.saturating_sub(1), Spawner::Inline, false)];
+    for k in 0..4 { let sp = [Spawner::Inline, Spawner::Threads, Spawner::PoolFresh][(k + t) % 3]; caps.push((match k { 0 => rng.below(l as u64 + 1) as usize, 1 => rng.below(8) as usize, 2 => rng.below(l as u64 + 1) as usize, _ => l.saturating_sub(rng.below(6) as usize) }, sp, k == 2)); }
+    for (cap, sp, reuse) in caps {
+        let o = run_multi(sp, &params, &input, t, cap, if reuse && sp == Spawner::PoolFresh { Some(&mut *pool) } else { None });
+        beat();
+        lines.push((format!("multi run {} {} {} {}", sp.name(), t, cap, jl), out_token(&o)));
+        rep.count(&format!("corr.run.{}", if o.class == "ok" { "ok" } else { "err" }));
+        if cap < l { rep.count("corr.run.below_needed"); }
+    }
+    rep.count("corr.cases");
+}
+
 pub fn run_cmd(args: &Args) {
     if args.rest.get(0).map(|s| s.as_str()) == Some("probe") { return probe(args); }
-    let corr = Corr::new(&args.out);
-    let rep = Report::default();
+    let thorough = args.tier == "thorough";
+    let seed = args.seed;
+    // watchdog: a hang (e.g. a pool join that never returns) is an observation, not a harness hang
+    { let out = args.out.clone(); std::thread::spawn(move || { let mut last = 0; let mut idle = 0; loop { std::thread::sleep(std::time::Duration::from_secs(2)); let b = BEAT.load(std::sync::atomic::Ordering::SeqCst); if b == last { idle += 1; if idle > 90 { let mut rep = Report::default(); rep.violation("multi:hang", "no CompressMulti call returned for 180 s (a join that never returns?)", "{}".into()); rep.write(&out); std::process::exit(0); } } else { idle = 0; last = b; } } }); }
+    let mut corr = Corr::new(&args.out);
+    let mut rep = Report::default();
+    // ---- corpus first: the minimal reproductions (regressions)
+    {
+        let mut pool: Pool = brotli::enc::new_work_pool(3);
+        let mut rng = Rng::new(seed ^ 0xC0);
+        let mut lines = vec![];
+        // D18: empty input, magic header, 2 threads, tiny buffers
+        for t in [2usize, 3] { let c = Case { q: 5, lgwin: 22, large: false, favor: false, catable: false, appendable: false, magic: true, t, n: 0, kind: 0, dseed: 1, size_hint: 0 }; corr_case(&c, &mut lines, &mut rep, &mut pool, &mut rng); search_case(&c, &mut rep, &mut pool, &mut rng); }
+        // D16: q6 lgwin13 4 threads 60 KB text
+        { let c = Case { q: 6, lgwin: 13, large: false, favor: true, catable: false, appendable: false, magic: false, t: 4, n: 60000, kind: 1, dseed: 0x16, size_hint: 0 }; search_case(&c, &mut rep, &mut pool, &mut rng); }
+        { let c = Case { q: 5, lgwin: 10, large: false, favor: true, catable: false, appendable: false, magic: false, t: 6, n: 5852, kind: 4, dseed: 0x17, size_hint: 0 }; search_case(&c, &mut rep, &mut pool, &mut rng); }
+        for (a, b) in lines { corr.case(&a, &b); }
+    }
+    // ---- arithmetic lines (ranges incl. the overflow edge, bounds)
+    {
+        let mut rng = Rng::new(seed ^ 0xA1);
+        for k in 0..(if thorough { 20000 } else { 3000 }) {
+            let t = rng.range(1, 16) as usize;
+            let n: usize = match k % 6 { 0 => rng.below(40) as usize, 1 => rng.below(1 << 20) as usize, 2 => (1usize << rng.range(10, 62)) + rng.below(3) as usize - 1, 3 => usize::MAX / t - rng.below(3) as usize, 4 => usize::MAX / t + 1 + rng.below(1000) as usize, _ => rng.next() as usize >> rng.below(64) };
+            let i = rng.below(t as u64) as usize;
+            let (lo, hi) = get_range(i, t, n);
+            corr.case(&format!("multi rangew {} {} {}", i, t, n), &format!("ok {} {}", lo, hi));
+            let ovf = (i as u128 + 1) * (n as u128) >= (1u128 << 64);
+            corr.case(&format!("multi range {} {} {}", i, t, n), &if ovf { "panic".to_string() } else { format!("ok {} {}", lo, hi) });
+            if n < (1 << 62) { corr.case(&format!("multi max {}", n), &format!("{}", BrotliEncoderMaxCompressedSize(n))); corr.case(&format!("multi maxmulti {} {}", n, t), &format!("{}", BrotliEncoderMaxCompressedSizeMulti(n, t))); }
+            rep.count("corr.arith");
+        }
+        for n in [0usize, 1, 16383, 16384, 16385, (1 << 20) - 1, 1 << 20, (1 << 20) + 1, (1 << 24) - 1, 1 << 24, (1 << 24) + 1, usize::MAX - 30, usize::MAX] { corr.case(&format!("multi max {}", n), &format!("{}", BrotliEncoderMaxCompressedSize(n))); }
+    }
+    // ---- correspondence cases (small inputs: every job's bytes go into the request line)
+    let ncorr = if thorough { 1600 } else { 224 };
+    let res = par_tasks(16, move |task| {
+        let mut lines = vec![]; let mut rep = Report::default();
+        let mut pool: Pool = brotli::enc::new_work_pool(1 + task % 5);
+        for k in 0..ncorr / 16 {
+            let mut rng = Rng::new(seed ^ 0xC022 ^ ((task as u64) << 20) ^ ((k as u64) << 36));
+            let c = gen_case(&mut rng, true);
+            corr_case(&c, &mut lines, &mut rep, &mut pool, &mut rng);
+        }
+        (lines, rep)
+    });
+    for (lines, r) in res { for (a, b) in lines { corr.case(&a, &b); } rep.merge(r); }
+    // ---- search
+    let nsearch = if thorough { 6400 } else { 480 };
+    let res = par_tasks(16, move |task| {
+        let mut rep = Report::default();
+        let mut pool: Pool = brotli::enc::new_work_pool(1 + (task * 7) % 16);
+        for k in 0..nsearch / 16 {
+            let mut rng = Rng::new(seed ^ 0x5EA2 ^ ((task as u64) << 20) ^ ((k as u64) << 36));
+            let c = gen_case(&mut rng, k % 4 == 0);
+            search_case(&c, &mut rep, &mut pool, &mut rng);
+            if rep.samples.len() < 1 { rep.sample(c.json("")); }
+        }
+        rep
+    });
+    for r in res { rep.merge(r); }
     corr.finish();
     rep.write(&args.out);
 }
